@@ -1,6 +1,6 @@
 /-
   C09 "returns at once" as an existential-schedule theorem: from every reachable state in which
-  the context is cancelled and `Wait` has not returned, the caller can complete its remaining
+  the context `Wait` is called with is cancelled and `Wait` has not returned, the caller can complete its remaining
   `Enqueue` calls and return from `Wait` without any running job body having to end.
 -/
 import CffVerif.Sched.Progress
@@ -71,12 +71,12 @@ theorem step_sent_le {c : Cfg} (hw : c.wiring = Wiring.std) {s s' : State} {a : 
     rcases hc with ⟨_, rfl⟩ | ⟨_, _, rfl⟩ | ⟨_, _, rfl⟩ <;> exact hle
   | workerEnd w o cancel =>
     obtain ⟨j, _, rfl⟩ := inv_workerEnd h
-    have : (afterBody s j o cancel).caller = s.caller := by unfold afterBody; split <;> simp
+    have : (afterBody c s j o cancel).caller = s.caller := by unfold afterBody; split <;> simp
     simp only [setW_caller, this]; exact hle
   | workerPost w => obtain ⟨_, _, _, _, rfl⟩ := inv_workerPost h; exact hle
   | workerDiePost w => obtain ⟨_, _, _, rfl⟩ := inv_workerDiePost hw h; exact hle
   | workerExit w => obtain ⟨_, _, rfl⟩ := inv_workerExit h; exact hle
-  | cancel => obtain ⟨_, rfl⟩ := inv_cancel h; exact hle
+  | cancel => obtain ⟨_, _, rfl⟩ := inv_cancel h; exact hle
 
 theorem sent_le_run {c : Cfg} (hw : c.wiring = Wiring.std) (acts : List Act) (s : State)
     (hr : run c (init c) acts = some s) : s.caller.sent ≤ c.deps.length :=
@@ -89,7 +89,7 @@ theorem drain_enq {c : Cfg} (hw : c.wiring = Wiring.std) (hwf : WfCfg c) :
     ∀ (n : Nat) (s : State), Reach c s → s.enq.length = n →
       ∃ (more : List Act) (s' : State), (∀ a ∈ more, a = Act.loopEnq ∨ a = Act.loopDrain) ∧
         run c s more = some s' ∧ Reach c s' ∧ s'.enq = [] ∧ s'.caller = s.caller ∧
-        s'.cancelled = s.cancelled := by
+        s'.doneCtx = s.doneCtx := by
   intro n
   induction n with
   | zero =>
@@ -141,7 +141,7 @@ theorem send_all {c : Cfg} (hw : c.wiring = Wiring.std) (hwf : WfCfg c) :
       s.caller.closed = false → s.caller.ret = none →
       ∃ (more : List Act) (s' : State), (∀ a ∈ more, a.isWorkerEnd = false) ∧
         run c s more = some s' ∧ Reach c s' ∧ s'.caller.sent = c.deps.length ∧
-        s'.caller.closed = false ∧ s'.caller.ret = none ∧ s'.cancelled = s.cancelled := by
+        s'.caller.closed = false ∧ s'.caller.ret = none ∧ s'.doneCtx = s.doneCtx := by
   intro k
   induction k with
   | zero =>
@@ -173,12 +173,12 @@ end P3
 
 open P3
 
-/-- **C09 "returns at once".** From every reachable state in which the context is cancelled and
-    `Wait` has not returned, the caller can finish all its remaining `Enqueue` calls and return
+/-- **C09 "returns at once".** From every reachable state in which `Wait`'s context
+    (`c.waitCtx`) is cancelled and `Wait` has not returned, the caller can finish all its remaining `Enqueue` calls and return
     from `Wait` through steps none of which is the end of a running job body (no `workerEnd`):
     it never has to wait for a running task. -/
 theorem prompt_return (c : Cfg) (hw : c.wiring = Wiring.std) (hwf : WfCfg c) (acts : List Act) (s : State)
-    (hr : run c (init c) acts = some s) (hc : s.cancelled = true) (hnr : s.caller.ret = none) :
+    (hr : run c (init c) acts = some s) (hc : s.cancelledCtx c.waitCtx = true) (hnr : s.caller.ret = none) :
     ∃ (more : List Act) (s' : State), (∀ a ∈ more, a.isWorkerEnd = false) ∧ run c s more = some s' ∧
       s'.caller.ret.isSome = true ∧ (s.caller.closed = false → s'.caller.sent = c.deps.length) := by
   have R := reach_run hw hwf acts s hr
@@ -210,8 +210,8 @@ theorem prompt_return (c : Cfg) (hw : c.wiring = Wiring.std) (hwf : WfCfg c) (ac
 example :
     let c : Cfg := { N := 1, coe := false, emit := false, deps := [[], []] }
     let more : List Act := [.callerSend, .loopEnq, .callerClose, .callerRetCtx]
-    ∃ s, run c (init c) [.callerSend, .loopEnq, .loopDispatch 0, .workerDecide 0, .cancel] = some s
-      ∧ s.cancelled = true ∧ s.caller.ret = none ∧ s.caller.closed = false ∧ s.ws = [.running 0]
+    ∃ s, run c (init c) [.callerSend, .loopEnq, .loopDispatch 0, .workerDecide 0, .cancel 0] = some s
+      ∧ s.cancelledCtx 0 = true ∧ s.caller.ret = none ∧ s.caller.closed = false ∧ s.ws = [.running 0]
       ∧ more.all (fun a => !a.isWorkerEnd) = true
       ∧ ∃ s', run c s more = some s' ∧ s'.caller.ret = some [.ctxErr] ∧ s'.caller.sent = c.deps.length
           ∧ s'.ws = [.running 0] ∧ wfCfgB c = true := by
